@@ -1,7 +1,7 @@
 import sys, importlib
 from pyvc import solve
 import checks.types_vc as T
-for m in ("types2_vc","types3_vc"):
+for m in ("types2_vc","types3_vc","types4_vc","types5_vc"):
     importlib.import_module("checks."+m)
 sel=sys.argv[1:]
 for name,(g,props) in T.GROUPS.items():
